@@ -436,6 +436,9 @@ func c07Workload(r *Rand, ctx *Ctx, dir string, minLangs, maxLangs int) *Workloa
 		}
 	}
 	w.RepoTpl = "" // repository templates are not attributed to a language
+	if sr := r.Side("final-passes"); sr.Chance(1, 4) {
+		AddFinalPasses(sr, w)
+	}
 	return w
 }
 
